@@ -18,7 +18,7 @@ def eval_doc(args):
     ver, doc = args
     import elementpath
     from xml.etree import ElementTree as ET
-    s = _S.get(ver) or _S.setdefault(ver, _cls(ver)(docgen.SCHEMA))
+    s = _S.get(ver) or _S.setdefault(ver, _cls(ver)(docgen.schema_for(ver)))
     root = ET.fromstring(doc)
     if not s.is_valid(root): return dict(doc=doc, ver=ver, cases=0, bad=[('generator produced an invalid base document', '')])
     bad = []; n = 0
